@@ -115,3 +115,70 @@ package meta
 //@   call append#2 requires owners_per_shard: all(s, 0, len(sgi.Shards), len(sgi.Shards[s].Owners) == replicaN)
 //@   call append#2 requires disjoint_from_live_groups: all(k, 0, len(rpi.ShardGroups), disjoint_live(rpi.ShardGroups[k], nanos(sgi.StartTime), nanos(sgi.EndTime)))
 //@   call append#2 requires contains_timestamp: !timestamp.Before(sgi.StartTime) && timestamp.Before(sgi.EndTime)
+
+// ---- C07.1 / C19.1 / C06.7: Clone is deep: a published Data is never written again ----
+// Schema (one instance per type): every slice/map-typed field of the result is either empty or freshly
+// allocated by this call, has the length of the original, and nothing that existed before is written.
+
+//@ func (ShardInfo).clone
+//@   props C07 C19
+//@   loop 1 invariant fresh_copy: fresh(other.Owners) && len(other.Owners) == len(si.Owners)
+//@   ensures fresh_owners: len(result.Owners) == 0 || fresh(result.Owners)
+//@   ensures same_len: len(result.Owners) == len(si.Owners) && result.ID == si.ID
+//@   modifies nothing
+
+//@ func (ShardGroupInfo).clone
+//@   props C07 C19
+//@   loop 1 invariant fresh_copy: fresh(other.Shards) && len(other.Shards) == len(sgi.Shards)
+//@   loop 1 invariant deep: all(k, 0, rangeindex+1, len(other.Shards[k].Owners) == 0 || fresh(other.Shards[k].Owners))
+//@   ensures fresh_shards: len(result.Shards) == 0 || fresh(result.Shards)
+//@   ensures deep: all(k, 0, len(result.Shards), len(result.Shards[k].Owners) == 0 || fresh(result.Shards[k].Owners))
+//@   ensures same_len: len(result.Shards) == len(sgi.Shards) && result.ID == sgi.ID
+//@   modifies nothing
+
+//@ func (RetentionPolicyInfo).clone
+//@   props C07 C19
+//@   loop 1 invariant fresh_copy: fresh(other.ShardGroups) && len(other.ShardGroups) == len(rpi.ShardGroups)
+//@   ensures fresh_groups: len(result.ShardGroups) == 0 || fresh(result.ShardGroups)
+//@   ensures fresh_subscriptions: len(result.Subscriptions) == 0 || fresh(result.Subscriptions)
+//@   ensures same_len: len(result.ShardGroups) == len(rpi.ShardGroups) && len(result.Subscriptions) == len(rpi.Subscriptions)
+//@   modifies nothing
+
+//@ func (UserInfo).clone
+//@   props C07 C19
+//@   loop 1 invariant fresh_map: other.Privileges != nil && fresh(other.Privileges)
+//@   ensures fresh_privileges: result.Privileges == nil || fresh(result.Privileges)
+//@   modifies nothing
+
+//@ func (DatabaseInfo).clone
+//@   props C07 C19
+//@   loop 1 invariant fresh_copy: fresh(other.RetentionPolicies) && len(other.RetentionPolicies) == len(di.RetentionPolicies)
+//@   loop 2 invariant fresh_copy: fresh(other.ContinuousQueries) && len(other.ContinuousQueries) == len(di.ContinuousQueries) && (len(other.RetentionPolicies) == 0 || fresh(other.RetentionPolicies))
+//@   ensures fresh_policies: len(result.RetentionPolicies) == 0 || fresh(result.RetentionPolicies)
+//@   ensures fresh_queries: len(result.ContinuousQueries) == 0 || fresh(result.ContinuousQueries)
+//@   ensures same_len: len(result.RetentionPolicies) == len(di.RetentionPolicies) && len(result.ContinuousQueries) == len(di.ContinuousQueries)
+//@   modifies nothing
+
+//@ func (*Data).CloneDatabases
+//@   props C07 C19
+//@   loop 1 invariant fresh_copy: fresh(dbs) && len(dbs) == len(data.Databases)
+//@   ensures fresh_dbs: len(result) == 0 || fresh(result)
+//@   ensures same_len: len(result) == len(data.Databases)
+//@   modifies nothing
+
+//@ func (*Data).CloneUsers
+//@   props C07 C19
+//@   loop 1 invariant fresh_copy: fresh(users) && len(users) == len(data.Users)
+//@   ensures fresh_users: len(result) == 0 || fresh(result)
+//@   ensures same_len: len(result) == len(data.Users)
+//@   modifies nothing
+
+//@ func (*Data).Clone
+//@   props C07 C19 C06
+//@   ensures fresh_result: result != nil && fresh(result)
+//@   ensures fresh_users: len(result.Users) == 0 || fresh(result.Users)
+//@   ensures fresh_databases: len(result.Databases) == 0 || fresh(result.Databases)
+//@   ensures fresh_data_nodes: len(result.DataNodes) == 0 || fresh(result.DataNodes)
+//@   ensures fresh_meta_nodes: len(result.MetaNodes) == 0 || fresh(result.MetaNodes)
+//@   ensures counters_kept: result.MaxShardID == data.MaxShardID && result.MaxShardGroupID == data.MaxShardGroupID && result.MaxNodeID == data.MaxNodeID
+//@   modifies nothing
